@@ -206,6 +206,8 @@ type FV struct {
 	extra    []string
 	used     map[string]bool
 	paramFirst []int
+	eqHeap   *Heap
+	lets     map[string]TV
 	divmemo  map[[2]int][2]*Term
 	divlist  []divRec
 	entryRefAxioms bool
@@ -463,9 +465,25 @@ func (fv *FV) runBlock(fr *Frame, st *State, b *ssa.BasicBlock, pred *ssa.BasicB
 			fv.loopBack(fr, st, li)
 			return nil
 		}
-		fv.loopEnter(fr, st, li)
+		if fv.loopEnterStops(fr, st, li) {
+			return nil
+		}
 	}
 	return fv.runInstrs(fr, st, b, b.Instrs, pred)
+}
+
+func (fv *FV) loopEnterStops(fr *Frame, st *State, li *loopInfo) (stopped bool) {
+	defer func() {
+		if r := recover(); r != nil {
+			if _, ok := r.(stopPath); ok {
+				stopped = true
+				return
+			}
+			panic(r)
+		}
+	}()
+	fv.loopEnter(fr, st, li)
+	return false
 }
 
 // runInstrs continues a block from a given instruction suffix.
@@ -705,7 +723,23 @@ func (fv *FV) stringConst(s string) Value {
 	}
 	arr := Obj(IntLit(int64(-1000000 - id)))
 	n := fv.idx(int64(len(s)))
-	return SliceV{Arr: arr, Off: fv.idx(0), Len: n, Cap: n}
+	v := SliceV{Arr: arr, Off: fv.idx(0), Len: n, Cap: n}
+	if fv.l.mode == ModeInt {
+		// the text of a constant is immutable: its content id is a fixed, constant-specific number
+		row := Select(Var("M_Int_0_0", ArraySort(RefSort, ArraySort(IntSort, IntSort))), arr)
+		fv.side = append(fv.side, Eq(App("content", IntSort, row, v.Off, v.Len), IntLit(int64(-id))))
+	}
+	return v
+}
+
+// strContent is the abstract identity of the byte string held by s in the current heap.
+func (fv *FV) strContent(s SliceV) *Term {
+	h := fv.eqHeap
+	if h == nil {
+		h = fv.entry.heap
+	}
+	elemSort := fv.l.intSort(types.Typ[types.Uint8])
+	return App("content", IntSort, h.elemRow(elemSort, 0, s.Arr), s.Off, s.Len)
 }
 
 // ---------------------------------------------------------------- instructions
@@ -1162,6 +1196,7 @@ func pow2Axioms() []*Term {
 func (fv *FV) binop(st *State, op token.Token, xv, yv Value, xt, yt, rt types.Type, in ssa.Instruction, pos token.Pos) Value {
 	switch op {
 	case token.EQL, token.NEQ:
+		fv.eqHeap = st.heap
 		e := fv.valuesEqual(xv, yv, xt)
 		if op == token.NEQ {
 			e = Not(e)
@@ -1418,8 +1453,11 @@ func (fv *FV) valuesEqual(xv, yv Value, t types.Type) *Term {
 				if same.IsTrue() {
 					return True
 				}
-				u := App("streq", BoolSort, x.Arr, x.Off, x.Len, y.Arr, y.Off, y.Len)
-				return Or(same, And(Eq(x.Len, y.Len), u))
+				if (y.Len.Op == "int" && y.Len.Int.Sign() == 0) || (x.Len.Op == "int" && x.Len.Int.Sign() == 0) {
+					return Eq(x.Len, y.Len) // comparison with the empty string
+				}
+				// equal iff same length and same abstract content id (string constants have distinct ids)
+				return Or(same, And(Eq(x.Len, y.Len), Eq(fv.strContent(x), fv.strContent(y))))
 			}
 			// slice compared with nil
 			if y.Arr.Op == "nil" {
